@@ -184,6 +184,18 @@ func (s *semapCtx) emptyWaitersAt(t *Trace, base *Sym, i int) bool {
 	return false
 }
 
+// sumFormFact: the path tested the fit as cur + n <= size (used to word the report).
+func (s *semapCtx) sumFormFact(t *Trace, facts []Fact, base, cur, n *Sym) bool {
+	sizeVals := fieldValues(t, s.size, base)
+	return hasFact(facts, func(f Fact) bool {
+		if f.Op == token.LEQ && f.X.Kind == KBin && f.X.Op == token.ADD && sizeVals[f.Y.Key()] {
+			a, b := f.X.Args[0], f.X.Args[1]
+			return (a.Key() == cur.Key() && b.Key() == n.Key()) || (b.Key() == cur.Key() && a.Key() == n.Key())
+		}
+		return false
+	})
+}
+
 // fitsFact: facts entail size(base) - cur >= n for the given current value of cur.
 func (s *semapCtx) fitsFact(t *Trace, facts []Fact, base, cur, n *Sym) bool {
 	sizeVals := fieldValues(t, s.size, base)
@@ -193,13 +205,9 @@ func (s *semapCtx) fitsFact(t *Trace, facts []Fact, base, cur, n *Sym) bool {
 		if f.Op == token.GEQ && f.X.Kind == KBin && f.X.Op == token.SUB && isSize(f.X.Args[0]) && f.X.Args[1].Key() == cur.Key() && f.Y.Key() == n.Key() {
 			return true
 		}
-		// cur + n <= size   /  n + cur <= size
-		if f.Op == token.LEQ && f.X.Kind == KBin && f.X.Op == token.ADD && isSize(f.Y) {
-			a, b := f.X.Args[0], f.X.Args[1]
-			if (a.Key() == cur.Key() && b.Key() == n.Key()) || (b.Key() == cur.Key() && a.Key() == n.Key()) {
-				return true
-			}
-		}
+		// `cur + n <= size` is NOT accepted: the property quantifies over every rwRatio >= 1, and for a capacity
+		// above MaxInt/2 the sum wraps (cur = size-1, n = size), so a writer is admitted beside readers. The
+		// subtraction forms cannot wrap because 0 <= cur <= size and n >= 0.
 		// size - n >= cur
 		if f.Op == token.GEQ && f.X.Kind == KBin && f.X.Op == token.SUB && isSize(f.X.Args[0]) && f.X.Args[1].Key() == n.Key() && f.Y.Key() == cur.Key() {
 			return true
@@ -307,7 +315,9 @@ func (s *semapCtx) checkGrants(t *Trace, name string) {
 				// written as !(size-cur < w.n)
 				return false
 			})
-			if !okFit {
+			if !okFit && s.sumFormFact(t, facts, base, e.Old, inc) {
+				c.violated("C01.grant-guard", "hand-off in "+cons, e.Pos, "the fit of a queued waiter is tested as `cur + w.n <= size`: for rwRatio above MaxInt/2 the sum wraps (readers holding, writer of weight rwRatio queued), the writer is admitted beside the readers and cur goes negative; the test must be `size-cur >= w.n`", c.witness(t, i)...)
+			} else if !okFit {
 				c.violated("C01.grant-guard", "hand-off in "+cons, e.Pos, "a queued waiter is granted without the test `size-cur >= w.n` on the current value of cur: more tokens than the capacity can be handed out", c.witness(t, i)...)
 			} else if blockedSince >= 0 {
 				c.violated("C01.grant-triple", "hand-off in "+cons, e.Pos, "a waiter is granted after an earlier waiter at the front did not fit (queue jumping: the writer at the front can starve)", c.witness(t, i)...)
@@ -347,6 +357,9 @@ func (s *semapCtx) checkGrants(t *Trace, name string) {
 			why := ""
 			if !fit {
 				why = "without the test `size-cur >= n` on the current value of cur"
+				if s.sumFormFact(t, facts, base, e.Old, inc) {
+					why = "under `cur + n <= size`, a sum that wraps for rwRatio above MaxInt/2 (the test must be `size-cur >= n`)"
+				}
 			}
 			if !empty {
 				if why != "" {
